@@ -114,14 +114,14 @@ def np_tile(I, a, reps):
     if isinstance(reps, (tuple, list)) and len(reps) == 2 and concrete_int(reps[1]) == 1:
         r = reps[0]
         if isinstance(a, Arr):
-            return Mat(r, a.n, lambda i, j: a.f(j), sparse=False)
+            return Mat(r, a.n, lambda i, j, _f_a=a.f: _f_a(j), sparse=False)
         # scalar / name tiled to a column block: (T,1)
         return Mat(r, 1, lambda i, j: a, sparse=False)
     if not isinstance(reps, (tuple, list)):
         if isinstance(a, Arr):
             n = a.n
             cn = concrete_int(n)
-            return Arr(_sz(binop('Mult', n, reps)), lambda i: a.f(sym.s_mod(i, n) if cn is None or True else i))
+            return Arr(_sz(binop('Mult', n, reps)), lambda i, _f_a=a.f: _f_a(sym.s_mod(i, n) if cn is None or True else i))
         return const_arr(reps, a)
     raise Unsupported('np.tile form')
 
@@ -180,7 +180,7 @@ def np_arange(I, a, b=None, **kw):
 def np_reshape(I, a, shape, **kw):
     if isinstance(a, Arr) and isinstance(shape, (tuple, list)) and len(shape) == 2 and concrete_int(shape[1]) == 1:
         I.require('reshape', cmpop('Eq', a.n, shape[0]), kind='shape')
-        return Mat(shape[0], 1, lambda r, c: a.f(r), sparse=False)
+        return Mat(shape[0], 1, lambda r, c, _f_a=a.f: _f_a(r), sparse=False)
     raise Unsupported('np.reshape form')
 
 
@@ -248,14 +248,14 @@ def sp_diags(I, v, k=0, **kw):
     if concrete_int(k) != 0:
         raise Unsupported('diags offset')
     v = _as_arr(I, v)
-    return Mat(v.n, v.n, lambda r, c: ite(cmpop('Eq', r, c), v.f(r), R0), sparse=True)
+    return Mat(v.n, v.n, lambda r, c, _f_v=v.f: ite(cmpop('Eq', r, c), _f_v(r), R0), sparse=True)
 
 
 def _to_mat(I, p, like=None):
     if isinstance(p, Mat):
         return p
     if isinstance(p, Arr):
-        return Mat(1, p.n, lambda r, c: p.f(c), sparse=False)
+        return Mat(1, p.n, lambda r, c, _f_p=p.f: _f_p(c), sparse=False)
     raise Unsupported('not a matrix')
 
 
@@ -315,10 +315,10 @@ def seg_hstack(I, parts):
     for s in acc.segs:
         if isinstance(s, Family):
             it = s.item
-            item = Mat(it.nr, new_nc, lambda r, c, it=it: ite(cmpop('Lt', c, old_nc), it.f(r, c), R0))
+            item = Mat(it.nr, new_nc, lambda r, c, it=it, _f_it=it.f: ite(cmpop('Lt', c, old_nc), _f_it(r, c), R0))
             segs.append(Family(s.fid, s.vars, s.dom, item, s.count))
         else:
-            segs.append(Mat(s.nr, new_nc, lambda r, c, s=s: ite(cmpop('Lt', c, old_nc), s.f(r, c), R0)))
+            segs.append(Mat(s.nr, new_nc, lambda r, c, s=s, _f_s=s.f: ite(cmpop('Lt', c, old_nc), _f_s(r, c), R0)))
     return Seg('mat', segs, nc=new_nc)
 
 
@@ -405,9 +405,9 @@ def pd_DataFrame(I, data=None, index=None, columns=None, **kw):
         d = DF()
         if columns:
             d.n = 0
-            d.index = Arr(0, lambda i: sym._raise('empty index'))
+            d.index = sym.empty_arr()
             for c in columns:
-                d.cols[c] = Arr(0, lambda i: sym._raise('empty column'))
+                d.cols[c] = sym.empty_arr()
         return d
     raise Unsupported('DataFrame(...) form')
 
@@ -941,11 +941,11 @@ def arr_attr(I, a, attr):
         def astype(I_, t, **kw):
             name = t.name if isinstance(t, TypeTok) else t
             if name == 'str':
-                return Arr(a.n, lambda i: _to_str_elem(a.f(i)), kind=a.kind)
+                return Arr(a.n, lambda i, _f_a=a.f: _to_str_elem(_f_a(i)), kind=a.kind)
             if name in ('int', 'int64'):
-                return Arr(a.n, lambda i: _to_int_elem(a.f(i)), kind=a.kind)
+                return Arr(a.n, lambda i, _f_a=a.f: _to_int_elem(_f_a(i)), kind=a.kind)
             if name in ('float',):
-                return Arr(a.n, lambda i: sym.to_real(a.f(i)), kind=a.kind)
+                return Arr(a.n, lambda i, _f_a=a.f: sym.to_real(_f_a(i)), kind=a.kind)
             raise Unsupported('astype ' + str(name))
         return astype
     if attr == 'fill':
@@ -956,16 +956,16 @@ def arr_attr(I, a, attr):
         def fillna(I_, v, **kw):
             if kw.get('inplace'):
                 raise Unsupported('fillna inplace')
-            return Arr(a.n, lambda i: _fillna(a.f(i), v), kind=a.kind)
+            return Arr(a.n, lambda i, _f_a=a.f: _fillna(_f_a(i), v), kind=a.kind)
         return fillna
     if attr == 'isnull' or attr == 'isna':
-        return lambda I_: Arr(a.n, lambda i: sym.is_null(a.f(i)))
+        return lambda I_, _f_a=a.f: Arr(a.n, lambda i: sym.is_null(_f_a(i)))
     if attr == 'notnull':
-        return lambda I_: Arr(a.n, lambda i: sym.s_not(sym.is_null(a.f(i))) if not isinstance(sym.is_null(a.f(i)), bool) else (not sym.is_null(a.f(i))))
+        return lambda I_, _f_a=a.f: Arr(a.n, lambda i: sym.s_not(sym.is_null(_f_a(i))) if not isinstance(sym.is_null(_f_a(i)), bool) else (not sym.is_null(_f_a(i))))
     if attr == 'isin':
         def isin(I_, other):
             other = _as_arr(I, other)
-            return Arr(a.n, lambda i: sym.exists_arr(other, lambda x: cmpop('Eq', x, a.f(i))))
+            return Arr(a.n, lambda i, _f_a=a.f: sym.exists_arr(other, lambda x: cmpop('Eq', x, _f_a(i))))
         return isin
     if attr == 'index':
         if a.index is not None:
@@ -1019,7 +1019,7 @@ def mat_attr(I, m, attr):
     if attr in ('tolil', 'tocsr', 'tocoo', 'toarray', 'todense', 'copy'):
         return lambda I_, **kw: (m if attr in ('tolil', 'tocsr', 'tocoo') else m.copy())
     if attr == 'T':
-        return Mat(m.nc, m.nr, lambda r, c: m.f(c, r), sparse=m.sparse)
+        return Mat(m.nc, m.nr, lambda r, c, _f_m=m.f: _f_m(c, r), sparse=m.sparse)
     if attr == 'flatten':
         return lambda I_, order='C': sym.flatten_c(m)
     if attr == 'sum':
@@ -1027,7 +1027,7 @@ def mat_attr(I, m, attr):
             if axis is None:
                 # total of all entries: sum over rows of row sums (only for single-row matrices here)
                 if concrete_int(m.nr) == 1:
-                    return sym.arr_sum(Arr(m.nc, lambda c: m.f(0, c)), I.pc)
+                    return sym.arr_sum(Arr(m.nc, lambda c, _f_m=m.f: _f_m(0, c)), I.pc)
                 raise Unsupported('matrix total sum')
             raise Unsupported('matrix axis sum')
         return msum
@@ -1128,7 +1128,7 @@ class Row:
 def df_attr(I, df, attr):
     if attr == 'index':
         if df.index is None:
-            return Arr(0, lambda i: sym._raise('empty index'))
+            return sym.empty_arr()
         return df.index
     if attr == 'columns':
         return Columns(df)
@@ -1241,7 +1241,7 @@ def df_setitem(I, df, key, v):
     if isinstance(v, Mat):
         # column given as (n,1) block (np.vstack of np.tile(name,(T,1)))
         if concrete_int(v.nc) == 1:
-            v = Arr(v.nr, lambda i, m=v: m.f(i, 0))
+            v = Arr(v.nr, lambda i, m=v, _f_m=m.f: _f_m(i, 0))
         else:
             raise Unsupported('2-D column')
     if isinstance(v, Arr):
@@ -1258,7 +1258,7 @@ def df_setitem(I, df, key, v):
     if df.n is None:
         # scalar into an empty frame: pandas creates an empty column
         df.n = 0
-        df.index = Arr(0, lambda i: sym._raise('empty index'))
+        df.index = sym.empty_arr()
     df.cols[key] = const_arr(df.n, v)
 
 
